@@ -67,6 +67,18 @@ def run_property(pid, tier, repo_root, write=True, out=print, evidence_dir=None,
         if tier == 'thorough':
             from . import crosscheck
             crosscheck.run(ctx)
+            if os.environ.get('SA_NO_SWEEP') != '1':
+                # systematic single-site mutants of the anchored functions: coverage evidence, never a verdict
+                from . import sweep
+                muts, noticed, survivors, crashes = sweep.sweep(pid, repo_root)
+                if crashes:
+                    raise AnalysisError('the checker crashed on %d generated mutants, e.g. %s' % (len(crashes), crashes[0]))
+                report.analysed['mutation_sweep'] = {
+                    'anchored_functions': len(sweep.ANCHORS.get(pid, [])), 'single_site_mutants': len(muts),
+                    'noticed_by_this_check': len(noticed), 'not_noticed': len(survivors),
+                    'note': 'mutants that this property\'s rules do not notice are equivalent, irrelevant to the property, '
+                            'caught by another property\'s check, or outside static reach; they are listed for triage',
+                    'not_noticed_sample': ['%s.%s: %s' % s for s in survivors[:40]]}
     rc, ev = report.finish(mod.META, out=out, write=write, evidence_dir=evidence_dir)
     return rc, report, ev
 
